@@ -228,8 +228,12 @@ fn must_hold(name: &str, goal: Result<Lit, bool>, pos: bool, wb: u64, out: &mut 
 }
 
 /// The bytecode used for the native confirmation: the move, then a store to each end of the window.
-fn confirm_program<C: CellType>(shift: isize, min_acc: isize, max_acc: isize) -> Program<C> {
-    let insts = vec![Instr::Mov(shift), Instr::Copy(Loc::Mem(min_acc), Loc::Imm(C::from_u64(0x5a))), Instr::Copy(Loc::Mem(max_acc), Loc::Imm(C::from_u64(0x3c)))];
+fn confirm_program<C: CellType>(shift: isize, min_acc: isize, max_acc: isize, scan: Option<isize>) -> Program<C> {
+    let first = match scan {
+        Some(cond) => Instr::Scan(cond, shift),
+        None => Instr::Mov(shift),
+    };
+    let insts = vec![first, Instr::Copy(Loc::Mem(min_acc), Loc::Imm(C::from_u64(0x5a))), Instr::Copy(Loc::Mem(max_acc), Loc::Imm(C::from_u64(0x3c)))];
     Program { temps: 0, min_accessed: min_acc, max_accessed: max_acc, live: vec![0; insts.len()], insts }
 }
 
@@ -240,6 +244,39 @@ fn fill(i: u64) -> u64 {
 /// Native run from the given geometry: a block of `size` cells, the pointer on cell `k`.
 /// Returns the non-zero cells as (position relative to the first non-zero cell, value) pairs.
 fn native_run<C: CellType>(jit: bool, shift: isize, min_acc: isize, max_acc: isize, size: u64, k: i64) -> Vec<u64> {
+    native_run_scan::<C>(jit, shift, min_acc, max_acc, size, k, None)
+}
+
+/// What the bytecode `[Mov/Scan; store at min; store at max]` must leave on an unbounded tape.
+fn reference_run(bits: u32, shift: isize, min_acc: isize, max_acc: isize, size: u64, k: i64, scan: Option<isize>) -> Vec<u64> {
+    let m = crate::term::mask(bits as u8);
+    let mut tape: std::collections::BTreeMap<i64, u64> = (0..size as i64).map(|i| (i, fill(i as u64) & m)).collect();
+    let mut p = k;
+    match scan {
+        None => p += shift as i64,
+        Some(c) => {
+            let mut n = 0;
+            while tape.get(&(p + c as i64)).copied().unwrap_or(0) != 0 && n < 10_000_000 {
+                p += shift as i64;
+                n += 1;
+            }
+        }
+    }
+    tape.insert(p + min_acc as i64, 0x5a);
+    tape.insert(p + max_acc as i64, 0x3c);
+    let mut v = Vec::new();
+    let mut first = None;
+    for (i, x) in tape {
+        if x != 0 {
+            let f = *first.get_or_insert(i);
+            v.push((i - f) as u64);
+            v.push(x);
+        }
+    }
+    v
+}
+
+fn native_run_scan<C: CellType>(jit: bool, shift: isize, min_acc: isize, max_acc: isize, size: u64, k: i64, scan: Option<isize>) -> Vec<u64> {
     let mut cxt = Context::<C>::without_io();
     cxt.memory.make_accessible(0, size as isize);
     for i in 0..size {
@@ -247,15 +284,15 @@ fn native_run<C: CellType>(jit: bool, shift: isize, min_acc: isize, max_acc: isi
     }
     cxt.memory.mov(k as isize);
     if jit {
-        let e = BaseJitCompiler::<C>::verif_from_bytecode(confirm_program::<C>(shift, min_acc, max_acc));
+        let e = BaseJitCompiler::<C>::verif_from_bytecode(confirm_program::<C>(shift, min_acc, max_acc, scan));
         let _ = e.execute(&mut cxt);
     } else {
-        let e = BcInterpreter::<C>::verif_from_bytecode(confirm_program::<C>(shift, min_acc, max_acc));
+        let e = BcInterpreter::<C>::verif_from_bytecode(confirm_program::<C>(shift, min_acc, max_acc, scan));
         let _ = e.execute(&mut cxt);
     }
     // the JIT does not write its pointer back: compare the tapes up to translation
     // (non-zero cells, positions relative to the first of them)
-    let span = 3 * size as isize + 2 * shift.abs() + 2 * (max_acc - min_acc) + 64;
+    let span = (3 * size as isize + 2 * shift.abs() + 2 * (max_acc - min_acc) + 64) * if scan.is_some() { 4 } else { 1 };
     let mut v: Vec<u64> = Vec::new();
     let mut first: Option<isize> = None;
     for j in -span..span {
@@ -276,6 +313,30 @@ pub fn replay(v: &Value) -> i32 {
     let _ = far;
     if size == 0 || size > 4096 + (mx - mn) as u64 || k + (mn as i64) < 0 || k + (mx as i64) >= size as i64 {
         println!("NOT-REPRODUCED: geometry outside what the native confirmation rebuilds");
+        return 0;
+    }
+    if v["engine"].as_str() == Some("bcint") {
+        // the bytecode interpreter against the unbounded-tape reading, block flush against a guard page on either side
+        let scan = v["scan_cond"].as_i64().map(|c| c as isize);
+        let bits = g("width") as u32;
+        let want = reference_run(bits, shift, mn, mx, size, k, scan);
+        for mode in [1u8, 2u8] {
+            crate::guard::set_case(&v.to_string());
+            crate::guard::set_mode(mode);
+            let got = match bits {
+                8 => native_run_scan::<u8>(false, shift, mn, mx, size, k, scan),
+                16 => native_run_scan::<u16>(false, shift, mn, mx, size, k, scan),
+                32 => native_run_scan::<u32>(false, shift, mn, mx, size, k, scan),
+                _ => native_run_scan::<u64>(false, shift, mn, mx, size, k, scan),
+            };
+            crate::guard::set_mode(0);
+            if got != want {
+                let at = got.iter().zip(want.iter()).position(|(x, y)| x != y).unwrap_or(got.len().min(want.len()));
+                println!("REPRODUCED property={} bytecode interpreter, {} by {} with window [{}, {}] at {} bits from a block of {} cells, pointer on cell {}: tape differs from the unbounded-tape reading (non-zero cells {} / {}, first difference at entry {})", v["property"].as_str().unwrap_or("C06"), if scan.is_some() { "scan" } else { "move" }, shift, mn, mx, bits, size, k, got.len() / 2, want.len() / 2, at / 2);
+                return 1;
+            }
+        }
+        println!("NOT-REPRODUCED: the bytecode interpreter leaves the tape of the unbounded-tape reading");
         return 0;
     }
     fn both<C: CellType>(shift: isize, mn: isize, mx: isize, size: u64, k: i64) -> (Vec<u64>, Vec<u64>) {
